@@ -141,9 +141,10 @@ def build_and_run(case, v: int, seed: int):
         from joserfc import jws, rfc7797, jwt as jwtm
 
         def call():
-            if jwt: return jwtm.decode(tok, key)
+            reg = None if case["reg"] == "default" else (rfc7797.JWSRegistry if fam == "7797" else jws.JWSRegistry)(strict_check_header=False)
+            if jwt: return jwtm.decode(tok, key, registry=reg)
             mod = rfc7797 if fam == "7797" else jws
-            return mod.deserialize_compact(tok, key) if ser == "compact" else mod.deserialize_json(tok, key)
+            return mod.deserialize_compact(tok, key, registry=reg) if ser == "compact" else mod.deserialize_json(tok, key, registry=reg)
         return classify(call)
     # ---------------- JWE family
     alg, enc = jwe_alg_for(slot)
@@ -234,7 +235,7 @@ def build_and_run(case, v: int, seed: int):
     kw = {"sender_key": J.jkey(J.pub(sj))} if sj else {}
 
     def call():
-        reg = jwe.JWERegistry(algorithms=names)
+        reg = jwe.JWERegistry(algorithms=names, strict_check_header=case["reg"] == "default", verify_all_recipients=case["reg"] != "lenient_any")
         if jwt: return jwtm.decode(tok, key, registry=reg)
         return jwe.decrypt_compact(tok, key, registry=reg, **kw) if ser == "compact" else jwe.decrypt_json(tok, key, registry=reg, **kw)
     return classify(call)
@@ -325,9 +326,12 @@ def fuzz_chunk(args):
             mt = bytes(b)
         key = J.jkey(jwk)
         if fam == "jws":
-            calls = [lambda: jws.deserialize_compact(mt, key), lambda: rfc7797.deserialize_compact(mt, key), lambda: jwtm.decode(mt, key)]
+            sreg = None if i % 2 else jws.JWSRegistry(strict_check_header=False)
+            s7reg = None if i % 2 else rfc7797.JWSRegistry(strict_check_header=False)
+            calls = [lambda: jws.deserialize_compact(mt, key, registry=sreg), lambda: rfc7797.deserialize_compact(mt, key, registry=s7reg),
+                     lambda: jwtm.decode(mt, key, registry=sreg)]
         else:
-            reg = jwe.JWERegistry(algorithms=names)
+            reg = jwe.JWERegistry(algorithms=names, strict_check_header=bool(i % 2))
             calls = [lambda: jwe.decrypt_compact(mt, key, registry=reg), lambda: jwtm.decode(mt, key, registry=reg)]
         for c in calls:
             o = classify(c)
@@ -351,7 +355,7 @@ def sig(case, o) -> str:
 def run(ctx: Ctx) -> None:
     thorough = ctx.tier == "thorough"
     r = ctx.tlc("Parse", timeout=600)
-    for d in ("HeaderNotObject", "CritUnvalidated", "EncUnhashable", "EncMissingJson", "EpkCrvLookup", "P2cRange", "InflateError", "DeepJson", "SegmentTypeConfusion"):
+    for d in ("HeaderNotObject", "CritUnvalidated", "EncUnhashable", "EncMissingJson", "EpkCrvLookup", "P2cRange", "InflateError", "DeepJson", "SegmentTypeConfusion", "LenientSkipsAlgParams"):
         ctx.sensitivity("Parse", "Parse_dev_" + d)
     cases = list({json.dumps(c["c"], sort_keys=True): c["c"] for c in r.cases}.values())
     if len(cases) < 5000:
